@@ -74,3 +74,19 @@ Proof.
   - intros Ht Hp. destruct (Hf x Hx) as [Hu _]. unfold ev_lt. apply ev_ltb_spec. right. split; [exact Ht|].
     right. split; [exact Hp|lia].
 Qed.
+
+(* before setup(model): run_until / run_for / run_next_event raise and leave the simulator exactly as it was;
+   every other call behaves as after setup and keeps the event-list invariant *)
+Lemma run_before_setup : forall cfg fuel st o st' ob l, is_run o = true ->
+  step_op_unset cfg fuel st o = (st', ob, l) -> st' = st /\ ob = [-1; E_NOSETUP] /\ l = [].
+Proof.
+  intros cfg fuel st o st' ob l Hr H. unfold step_op_unset in H. rewrite Hr in H. inversion H; subst. auto.
+Qed.
+
+Lemma inv_step_op_unset : forall cfg fuel st o st' ob l, inv st ->
+  step_op_unset cfg fuel st o = (st', ob, l) -> inv st'.
+Proof.
+  intros cfg fuel st o st' ob l Hi H. unfold step_op_unset in H. destruct (is_run o).
+  - inversion H; subst. exact Hi.
+  - eapply inv_step_op; eassumption.
+Qed.
